@@ -102,6 +102,7 @@ func chanQueueScenario(seed int64, id int) []map[string]any {
 		go func() {
 			defer all.Done()
 			defer prods.Done()
+			defer guard("c20b")
 			for k := 1; k <= items; k++ {
 				v := p*100 + k
 				if r.Intn(2) == 0 {
@@ -123,6 +124,7 @@ func chanQueueScenario(seed int64, id int) []map[string]any {
 		all.Add(1)
 		go func() {
 			defer all.Done()
+			defer guard("c20b")
 			for {
 				log.add(map[string]any{"k": "start", "g": g, "op": "pull", "v": 0})
 				v, ok := q.Pull()
@@ -137,6 +139,7 @@ func chanQueueScenario(seed int64, id int) []map[string]any {
 	all.Add(1)
 	go func() {
 		defer all.Done()
+		defer guard("c20b")
 		prods.Wait()
 		log.add(map[string]any{"k": "start", "g": 0, "op": "close", "v": 0})
 		q.Close()
@@ -196,6 +199,7 @@ func playerListScenario(seed int64, id int) []map[string]any {
 	obs.Add(1)
 	go func() { // observer: Len() must never exceed the capacity
 		defer obs.Done()
+		defer guard("c20b")
 		for i := 0; i < 200; i++ {
 			select {
 			case <-stop:
@@ -224,6 +228,7 @@ func playerListScenario(seed int64, id int) []map[string]any {
 		wg.Add(1)
 		go func() {
 			defer wg.Done()
+			defer guard("c20b")
 			mine := []*plClient{{id: g*10 + 1}, {id: g*10 + 2}}
 			for k := 0; k < 3+r.Intn(3); k++ {
 				c := mine[r.Intn(2)]
@@ -299,6 +304,7 @@ func playerListBurst(seed int64, id int) []map[string]any {
 		wg.Add(1)
 		go func() {
 			defer wg.Done()
+			defer guard("c20b")
 			c := &plClient{id: g*10 + 1}
 			ready.Add(1)
 			for goFlag.Load() == 0 { // spin: all joiners leave the barrier together
@@ -360,6 +366,7 @@ func runStreams(env *vk.Env) {
 		wg.Add(1)
 		go func() {
 			defer wg.Done()
+			defer guard("c20b")
 			rng := newRand(env.Seed, fmt.Sprint("stream", g))
 			thr := []int{-1, 0, 64, 256}[g%4]
 			var wire bytes.Buffer
@@ -374,60 +381,67 @@ func runStreams(env *vk.Env) {
 				for i := 8; i < len(payload); i++ {
 					payload[i] = byte(rng.Intn(4)) // compressible
 				}
-				if k%2 == 0 {
-					p := pk.Packet{ID: int32(g*1000 + k), Data: payload}
-					want := sha(append(binary.BigEndian.AppendUint32(nil, uint32(p.ID)), p.Data...))
-					log.add(map[string]any{"k": "send", "g": g, "sha": want})
-					err := p.Pack(&wire, thr)
-					var q pk.Packet
-					dst := &q
-					if k%4 == 0 {
-						dst = &recvP
+				round := func() {
+					if k%2 == 0 {
+						p := pk.Packet{ID: int32(g*1000 + k), Data: payload}
+						want := sha(append(binary.BigEndian.AppendUint32(nil, uint32(p.ID)), p.Data...))
+						log.add(map[string]any{"k": "send", "g": g, "sha": want})
+						err := p.Pack(&wire, thr)
+						var q pk.Packet
+						dst := &q
+						if k%4 == 0 {
+							dst = &recvP
+						}
+						if err == nil {
+							err = dst.UnPack(&wire, thr)
+						}
+						got := sha(append(binary.BigEndian.AppendUint32(nil, uint32(dst.ID)), dst.Data...))
+						log.add(map[string]any{"k": "recv", "g": g, "sha": got, "err": err != nil})
+						if k%4 != 0 && len(kept) < 40 {
+							kept = append(kept, q)
+							keptSha = append(keptSha, got)
+							log.add(map[string]any{"k": "keep", "g": g})
+						}
+					} else if k%8 == 3 {
+						// a struct type nobody has encoded before (a miss in the shared per-type field cache, at the same time as
+						// the other goroutines' misses and hits)
+						t := reflect.StructOf([]reflect.StructField{
+							{Name: "G", Type: reflect.TypeOf(int32(0)), Tag: `nbt:"g"`},
+							{Name: fmt.Sprintf("X%d_%d", g, k), Type: reflect.TypeOf([]byte(nil))},
+							{Name: "K", Type: reflect.TypeOf(int32(0)), Tag: `nbt:"k,omitempty"`},
+						})
+						v := reflect.New(t).Elem()
+						v.Field(0).SetInt(int64(g))
+						v.Field(1).SetBytes(payload)
+						v.Field(2).SetInt(int64(k))
+						ref := fmt.Sprint(g, k, sha(payload))
+						log.add(map[string]any{"k": "send", "g": g, "sha": sha([]byte(ref))})
+						var buf bytes.Buffer
+						err := nbt.NewEncoder(&buf).Encode(v.Interface(), "root")
+						back := reflect.New(t)
+						if err == nil {
+							_, err = nbt.NewDecoder(&buf).Decode(back.Interface())
+						}
+						got := fmt.Sprint(back.Elem().Field(0).Int(), back.Elem().Field(2).Int(), sha(back.Elem().Field(1).Bytes()))
+						log.add(map[string]any{"k": "recv", "g": g, "sha": sha([]byte(got)), "err": err != nil})
+					} else {
+						v := streamNBT{G: int32(g), K: int32(k), Data: payload, Name: fmt.Sprint("s", g, "-", k), L: []int64{int64(g), int64(k)}, M: map[string]int32{"g": int32(g)}}
+						ref, _ := json.Marshal(v)
+						log.add(map[string]any{"k": "send", "g": g, "sha": sha(ref)})
+						var buf bytes.Buffer
+						err := nbt.NewEncoder(&buf).Encode(v, "root")
+						var back streamNBT
+						if err == nil {
+							_, err = nbt.NewDecoder(&buf).Decode(&back)
+						}
+						gotj, _ := json.Marshal(back)
+						log.add(map[string]any{"k": "recv", "g": g, "sha": sha(gotj), "err": err != nil})
 					}
-					if err == nil {
-						err = dst.UnPack(&wire, thr)
-					}
-					got := sha(append(binary.BigEndian.AppendUint32(nil, uint32(dst.ID)), dst.Data...))
-					log.add(map[string]any{"k": "recv", "g": g, "sha": got, "err": err != nil})
-					if k%4 != 0 && len(kept) < 40 {
-						kept = append(kept, q)
-						keptSha = append(keptSha, got)
-						log.add(map[string]any{"k": "keep", "g": g})
-					}
-				} else if k%8 == 3 {
-					// a struct type nobody has encoded before (a miss in the shared per-type field cache, at the same time as
-					// the other goroutines' misses and hits)
-					t := reflect.StructOf([]reflect.StructField{
-						{Name: "G", Type: reflect.TypeOf(int32(0)), Tag: `nbt:"g"`},
-						{Name: fmt.Sprintf("X%d_%d", g, k), Type: reflect.TypeOf([]byte(nil))},
-						{Name: "K", Type: reflect.TypeOf(int32(0)), Tag: `nbt:"k,omitempty"`},
-					})
-					v := reflect.New(t).Elem()
-					v.Field(0).SetInt(int64(g))
-					v.Field(1).SetBytes(payload)
-					v.Field(2).SetInt(int64(k))
-					ref := fmt.Sprint(g, k, sha(payload))
-					log.add(map[string]any{"k": "send", "g": g, "sha": sha([]byte(ref))})
-					var buf bytes.Buffer
-					err := nbt.NewEncoder(&buf).Encode(v.Interface(), "root")
-					back := reflect.New(t)
-					if err == nil {
-						_, err = nbt.NewDecoder(&buf).Decode(back.Interface())
-					}
-					got := fmt.Sprint(back.Elem().Field(0).Int(), back.Elem().Field(2).Int(), sha(back.Elem().Field(1).Bytes()))
-					log.add(map[string]any{"k": "recv", "g": g, "sha": sha([]byte(got)), "err": err != nil})
-				} else {
-					v := streamNBT{G: int32(g), K: int32(k), Data: payload, Name: fmt.Sprint("s", g, "-", k), L: []int64{int64(g), int64(k)}, M: map[string]int32{"g": int32(g)}}
-					ref, _ := json.Marshal(v)
-					log.add(map[string]any{"k": "send", "g": g, "sha": sha(ref)})
-					var buf bytes.Buffer
-					err := nbt.NewEncoder(&buf).Encode(v, "root")
-					var back streamNBT
-					if err == nil {
-						_, err = nbt.NewDecoder(&buf).Decode(&back)
-					}
-					gotj, _ := json.Marshal(back)
-					log.add(map[string]any{"k": "recv", "g": g, "sha": sha(gotj), "err": err != nil})
+				}
+				// a panic inside the library (every send above is logged before the library is called) is what this
+				// goroutine received for that send
+				if pan, where := catch(round); pan {
+					log.add(map[string]any{"k": "recv", "g": g, "sha": "panicked: " + where, "err": false})
 				}
 				if rng.Intn(8) == 0 {
 					runtime.Gosched()
@@ -497,6 +511,7 @@ func botConnScenario(seed int64, id int) []map[string]any {
 		all.Add(1)
 		go func() {
 			defer all.Done()
+			defer guard("c20b")
 			if late {
 				<-lateStart
 			}
@@ -517,6 +532,7 @@ func botConnScenario(seed int64, id int) []map[string]any {
 	all.Add(1)
 	go func() {
 		defer all.Done()
+		defer guard("c20b")
 		r := rand.New(rand.NewSource(rng.Int63()))
 		for i := 1; i <= n; i++ {
 			if r.Intn(3) == 0 {
